@@ -282,8 +282,6 @@ def run(ctx):
     alphabet = '%.01_+- a\x1c'
     maxlen = 5 if thorough else 4
     small = [''.join(t) for L in range(0, maxlen + 1) for t in itertools.product(alphabet, repeat=L)]
-    if ctx.quick:
-        small = [s for s in small if len(s) <= 3] + rng.sample([s for s in small if len(s) == 4], 1500)
     run_parse_cases(ctx, small, 'small-alphabet')
 
     # --- queries on generated messages ------------------------------------------
@@ -291,7 +289,7 @@ def run(ctx):
     msgs = []
     for ed in (2, 3, 4):
         for sec2o in (None, b'\xa5\x5a'):
-            for rep in range(ctx.n(1, 3)):
+            for rep in range(ctx.n(2, 5)):
                 n = rng.randrange(0, 24)
                 bits = ''.join(rng.choice('01') for _ in range(n))
                 b = fc.craft(ed, bits, sec2o, {}, rng=rng)
@@ -304,8 +302,7 @@ def run(ctx):
     qexprs += [' %length ', '%1.2.length', 'length', '%x.length', '', '%']
     for ed, sec2o, b in msgs:
         for info in (0, 1):
-            ex = qexprs if thorough else (rng.sample(qexprs, 120) + ['%section_length', '%reserved_bits', '%flag_bits', '%2.section_length',
-                                                                     '%3.flag_bits', '%4.section_length', '%template_data', '%stop_signature'])
+            ex = qexprs
             # chunks keep the command lines short
             for i in range(0, len(ex), 60):
                 items.append((b + b'trailing', info, ex[i:i + 60]))
